@@ -164,8 +164,18 @@ fn plan10(seed: u64, run: u64, tier: Tier) -> Plan10 {
     let lookalike = rng.chance(1, 8);
     match rng.below(16) {
         0 | 1 | 2 => {
-            ref_kind = "inline";
-            ref_text = format!("\n//# sourceMappingURL=data:application/json;base64,{}\n", b64_encode(ojson.as_bytes()));
+            // the media type may carry a charset parameter (the form Babel, TypeScript, esbuild and
+            // convert-source-map emit)
+            let preamble = *rng.pick(&[
+                "data:application/json;base64,",
+                "data:application/json;base64,",
+                "data:application/json;base64,",
+                "data:application/json;charset=utf-8;base64,",
+                "data:application/json;charset=UTF-8;base64,",
+                "data:application/json;charset=utf8;base64,",
+            ]);
+            ref_kind = if preamble.contains("charset") { "inline-charset" } else { "inline" };
+            ref_text = format!("\n//# sourceMappingURL={}{}\n", preamble, b64_encode(ojson.as_bytes()));
             orig_map = Some(ojson.clone());
         }
         3 | 4 | 5 | 6 | 7 => {
@@ -456,6 +466,17 @@ fn check_composition(r: &Map, o: &Map, t: &Map) -> Result<(usize, usize, usize),
                     }
                 }
                 if other.is_none() {
+                    // nothing in the original map at or before that position: the composition is "unmapped",
+                    // so the chained map must not resolve this generated position to a source either
+                    if let Some((a, _)) = Map::resolve(&tsorted, l, c) {
+                        if a.src.is_some() && !(a.gl == l && a.gc == c) {
+                            let asrc = a.src.and_then(|x| t.source_name(x)).unwrap_or_default();
+                            return Err(format!(
+                                "generated {l}:{c} resolves to {asrc}:{}:{} in the chained map (inherited from the token at {}:{}) but the original map has no mapping at or before the rewrite map's source position {}:{} (composition: unmapped)",
+                                a.sl, a.sc, a.gl, a.gc, rt.sl, rt.sc
+                            ));
+                        }
+                    }
                     if let Some(tt) = tsorted.iter().find(|t| t.gl == l && t.gc == c && t.src.is_some()) {
                         let asrc = tt.src.and_then(|x| t.source_name(x)).unwrap_or_default();
                         return Err(format!(
